@@ -51,8 +51,10 @@ class LoggedProblem:
                 self.exc = exc
 
             def Calculate(self, point, functionValue):
-                fr = sys._getframe(1).f_code
+                fr0 = sys._getframe(1)
+                fr = fr0.f_code
                 caller, cfile = fr.co_name, fr.co_filename.replace("\\", "/")
+                owner = id(fr0.f_locals.get("self"))       # the OptimizationTask / Process object of the solver that is evaluating
                 # a call made from the output system (a painter probing the objective to draw it) or from outside the library is
                 # not a trial of the search; the search evaluates through OptimizationTask.Calculate (global phase) and
                 # Process.problemCalculate (local refinement)
@@ -77,7 +79,7 @@ class LoggedProblem:
                 if phase == "other" and not getattr(self, "keep_other", True):
                     self.probes = getattr(self, "probes", 0) + 1     # a painter's probe: counted, not a trial
                 else:
-                    self.log.append((phase, pt, v, id(functionValue)))
+                    self.log.append((phase, pt, v, id(functionValue), owner))
                 return functionValue
         return P()
 
@@ -156,7 +158,7 @@ class Impl:
         self.printed_evals += len(ev)
         lg = self.events[self.printed_log:]
         self.printed_log = len(self.events)
-        evs = " ".join(",".join(f2h(c) for c in pt) + "=" + f2h(v) for _, pt, v, _ in ev)
+        evs = " ".join(",".join(f2h(c) for c in e_[1]) + "=" + f2h(e_[2]) for e_ in ev)
         return f"evals[{evs}] events[{' '.join(lg)}]"
 
     def _make_listener(self):
